@@ -264,7 +264,11 @@ static void do_footprint_mark(const Op& op) {
   if (op.a == 0) collect_all_heaps(true);
   std::vector<ArenaArea> as = all_arena_areas();
   uint64_t mapped = 0, resident = 0;
-  for (auto& r : os_regions()) { if (r.donated) continue; mapped += r.len; resident += os_resident_bytes(r.start, r.len); }
+  // parts of the segment map (8 KiB each, one per ~2 TiB of address space in which a segment was ever placed) are allocated
+  // on first use and kept by design; their number is bounded by the address space, not by the history
+  size_t segmap_parts = 0;
+  for (auto& r : os_regions()) { if (r.donated) continue; if (r.len <= 8192) { segmap_parts++; continue; } mapped += r.len; resident += os_resident_bytes(r.start, r.len); }
+  if (segmap_parts > 64) sim_violation("footprint_creep", "%zu mappings of at most 8 KiB exist (segment-map parts are bounded by the address space: at most 25 in the simulated window)", segmap_parts);
   H.fp_mapped.push_back(mapped); H.fp_resident.push_back(resident); H.fp_accessible.push_back(os_accessible_bytes());
   H.fp_work.push_back(H.work_hash); H.work_hash = 0;
   H.footprint_marks++;
